@@ -36,10 +36,14 @@ def show(t, mode, rng, parent=0, right=False):
         s = str(t[1])
     elif k == "str":
         s = '"%s"' % t[1]
+    elif k == "arr":
+        s = "[" + ", ".join(show(x, mode, rng, 0, False) for x in t[1]) + "]"
+    elif k == "hash":
+        s = "{" + ", ".join('"%s": %s' % (kk, show(x, mode, rng, 0, False)) for kk, x in t[1]) + "}"
     elif k == "bin":
         p = PREC[t[1]]
         ls = show(t[2], mode, rng, p, False)
-        if t[1] == "/" and ls.endswith('"'):
+        if t[1] == "/" and (ls.endswith('"') or ls.endswith('}')):
             ls = "(" + ls + ")"          # `/` directly after a string literal would start a regexp (C14)
         s = "%s %s %s" % (ls, t[1], show(t[3], mode, rng, p, True))
     elif k == "pre":
@@ -73,6 +77,10 @@ def dump(t):
         return "(int %s %d)" % (hx(str(t[1])), t[1])
     if k == "str":
         return "(str %s)" % hx(t[1])
+    if k == "arr":
+        return "(arr%s)" % "".join(" " + dump(x) for x in t[1])
+    if k == "hash":
+        return "(hash%s)" % "".join(" (%s %s)" % (dump(("str", kk)), dump(x)) for kk, x in t[1])
     if k == "bin":
         return "(in %s %s %s)" % (hx(t[1]), dump(t[2]), dump(t[3]))
     if k == "pre":
@@ -155,6 +163,18 @@ class C12(Prop):
             add(("bin", op, ("dot", A, "f"), B), "postfix")
             add(("tern", ("bin", op, A, B), C, D), "ternary")
             add(("tern", A, ("bin", op, B, C), ("bin", op, C, D)), "ternary")
+        # array and hash literals as operands: what follows them (index, member, call, infix) applies to the literal
+        H, L = ("hash", [("a", ("int", 5)), ("b", ("id", "b"))]), ("arr", [("int", 1), ("id", "a")])
+        for lit_ in (H, L):
+            add(("idx", lit_, ("str", "a")), "literal-operand")
+            add(("dot", lit_, "a"), "literal-operand")
+            for op in BINOPS:
+                add(("bin", op, ("idx", lit_, ("str", "a")), C), "literal-operand")
+                add(("bin", op, lit_, C), "literal-operand")
+                add(("bin", op, A, lit_), "literal-operand")
+                add(("bin", op, A, ("idx", lit_, C)), "literal-operand")
+            add(("tern", ("idx", lit_, C), lit_, ("idx", lit_, A)), "literal-operand")
+            add(("call", "f", [lit_, ("idx", lit_, C)]), "literal-operand")
         n = 100000 if tier == "thorough" else 1200
         for _ in range(n):
             add(rand_tree(rng, rng.choice([2, 3, 4, 5])), "random")
